@@ -1,33 +1,34 @@
 PROP = dict(
     properties="Properties/C01.v",
     harness_mods=["Harness/C01.v"],
-    runs=[dict(cmd="c01", quick=9, thorough=120, timeout=3000)],
+    runs=[dict(cmd="c01", quick=7, thorough=120, timeout=3000)],
     trusted_base=[
         "hand-written Gallina models coq/Node/Layers.v (store layers, flush, prune, restart; the interpreter is a parameter) and "
-        "coq/Tokens/Model.v + coq/Node/Gov.v (NEO/Policy caches as derived state, reinit = InitializeCache), tied by differential comparison only",
+        "coq/Tokens/Model.v + coq/Node/Gov.v (NEO/Policy/Designate/Management caches as derived state, reinit = InitializeCache), tied by differential comparison only",
         "harness/c01.go + c05chain.go: source node + replicas on real Blockchain instances (memory/LevelDB/BoltDB), observation through public getters, "
         "SeekStorage, GetAppExecResults, GetStateRoot and read-only contract invocations",
         "hook pkg/core/verif_hooks.go (VerifPersist / VerifPersistGC): one synchronous flush of the write cache at a block boundary",
-        "behaviour probes c05Probe (which of the repaired behaviours F7/F23 the tree has; sets two model flags)",
+        "behaviour probes c05Probe (which of the repaired behaviours F7/F23/F47 the tree has; sets three model flags)",
     ],
     assumptions=[
-        "exec (VM + native contracts other than the modelled NEO/GAS/Policy/Notary parts) is a deterministic function of the state keys and the block: carried by the replica differential only",
+        "exec (VM + native contracts other than the modelled NEO/GAS/Policy/Notary/Designate/Management parts) is a deterministic function of the state keys and the block: carried by the replica differential only",
         "cfg_wf, blocks_ok as for C05; committee size constant and positive",
         "the governance theorems are for the repaired code (fix_block_dirty, fix_gpv_drop, fix_whitelist); counter-examples are proved for the unrepaired settings",
         "protocol parameters (explicit allow-list c01ProtocolParams in harness/c01.go) are equal on all replicas; NeoFS fetcher options are not varied",
     ],
-    modelled="store layering and the NEO/Policy caches are modelled and proved; Management/Designate/Oracle/Notary caches, the MPT, the mempool and the real "
-             "goroutine schedule are covered by the replica differential only",
+    modelled="store layering and the NEO/Policy/Designate/Management caches (role -> latest (height, keys) with historic look-up in storage; contract hash -> id/update counter, "
+             "id index, next id, blocked hash of a destroyed contract, CleanWhitelist on update/destroy) are modelled and proved; NEP-11/17 lists of Management, Oracle/Notary settings caches, the MPT, "
+             "the mempool and the real goroutine schedule are covered by the replica differential only",
 )
 META = dict(
     text="Proved in Coq: a flush at any time changes no answer; replicas fed the same blocks under any flush/prune/restart schedules agree on all state keys, results and height "
-         "(interpreter = any function of state keys); for every block history the incrementally maintained NEO and Policy caches (committee, next-epoch committee, votesChanged, "
-         "gas-per-vote, gas-per-block, register price, blocked accounts, fee settings) are coherent with storage after every block, and a restart after ANY block (any number of restarts) "
-         "leaves the storage of the modelled contracts and every committee / validator / policy answer unchanged after ANY continuation (simulation proof) — for the repaired code; for the unrepaired code the three counter-example histories (findings F7, F23, F47) are theorems. "
+         "(interpreter = any function of state keys); for every block history the incrementally maintained NEO, Policy, Designate and Management caches (committee, next-epoch committee, votesChanged, "
+         "gas-per-vote, gas-per-block, register price, blocked accounts, fee settings, whitelisted fees, latest designation per role, contract states) are coherent with storage after every block, and a restart after ANY block (any number of restarts) "
+         "leaves the storage of the modelled contracts and every committee / validator / policy / getDesignatedByRole(role, any index) / getContract / whitelisted-fee answer unchanged after ANY continuation (simulation proof) — for the repaired code; for the unrepaired code the three counter-example histories (findings F7, F23, F47) are theorems. "
          "Tied to the real node by a replica differential: the same blocks on memory/LevelDB/BoltDB replicas with random flush points (hook VerifPersist), KeepOnlyLatestState, "
-         "RemoveUntraceableBlocks+GC, SkipBlockVerification, VerifyTransactions off, every further bool/int node-local option found by reflection over config.Blockchain (SaveInvocations, SaveStorageBatch, GarbageCollectionPeriod, MemPoolSize, MempoolSubscriptionsEnabled, ...) toggled singly and in combinations, mempool junk and a restart at every height, histories including calls with unusual arguments (iterators, pointers, self-referencing and deeply nested items, buffers around MaxSize), comparing state root, full contract storage, execution results and "
-         "all getters at every height; plus the governance model against the source node's getters. Partial: the interpreter (VM, natives outside NEO/GAS/Policy/Notary accounting) is a parameter of the store theorems; "
-         "Management/Designate/Oracle caches are not modelled (compared on the real replicas only).",
+         "RemoveUntraceableBlocks+GC, SkipBlockVerification, VerifyTransactions off, every further bool/int node-local option found by reflection over config.Blockchain (SaveInvocations, SaveStorageBatch, GarbageCollectionPeriod, MemPoolSize, MempoolSubscriptionsEnabled, ...) toggled singly and in combinations, mempool junk and a restart at every height, histories including designations of several roles across blocks queried at historic heights, contract deploy/update/whitelist/destroy/redeploy sequences, NotaryAssisted transactions, calls with unusual arguments (iterators, pointers, self-referencing and deeply nested items, buffers around MaxSize), comparing state root, full contract storage, execution results and "
+         "all getters at every height; plus the governance model against the source node's getters. Partial: the interpreter (VM, natives outside NEO/GAS/Policy/Notary/Designate/Management) is a parameter of the store theorems; "
+         "the NEP-11/17 lists of Management and the Oracle/Notary settings caches are not modelled (compared on the real replicas only).",
     note="Trusted: Coq kernel + vm_compute, the hand-written models (tied by differential comparison only), the Go harness, the VerifPersist hook, ./check. "
          "Assumed: VM/native determinism as a function of storage and block (checked only by the differential).",
 )
